@@ -418,7 +418,37 @@ func (g *c05gen) hostileStream(maxLen int) []byte {
 	n := 1 + g.r.Intn(10)
 	for i := 0; i < n && len(out) < maxLen; i++ {
 		_, w := g.validFrame()
-		switch g.r.Intn(8) {
+		switch g.r.Intn(9) {
+		case 6:
+			// a frame of a dialect message with a correct checksum (and signature) whose payload has a size the
+			// message cannot have: well-formed on the wire, undecodable -> must surface as a parse error
+			if g.env.drw != nil && len(g.msgs) > 0 {
+				mi := g.msgs[g.r.Intn(len(g.msgs))]
+				version := 1
+				if g.env.key != nil || mi.Msg.GetID() > 255 || g.r.Chance(1, 3) {
+					version = 2
+				}
+				s, _ := validFrame(g.r, mi, version, 0, g.env.key != nil, g.env.keyRaw)
+				n := g.r.Intn(256)
+				if g.r.Chance(1, 2) {
+					n = mi.Layout.SizeBase + g.r.Intn(5) - 2
+					if n < 0 {
+						n = 0
+					}
+					if n > 255 {
+						n = 255
+					}
+				}
+				s.Payload = g.r.Bytes(n)
+				if s.Signed {
+					g.tsNext += uint64(g.r.Intn(1000))
+					s.Timestamp = g.tsNext
+				}
+				ref.Seal(s, mi.Layout.CRCExtra, g.env.keyRaw)
+				g.env.rep.Count("wrong_size_valid_checksum_frames", 1)
+				w = ref.Serialize(s)
+			}
+			out = append(out, w...)
 		case 0:
 			out = append(out, w[:g.r.Intn(len(w))]...) // truncated
 		case 1:
